@@ -292,6 +292,13 @@ pub struct Obs {
     pub path_b: Option<Vec<u8>>,
     pub reason_b: Option<Vec<u8>>,
     pub headers_b: Vec<(Vec<u8>, Vec<u8>)>,
+    /// allocator calls on this thread during the parser call (C19)
+    pub allocs: u64,
+    /// H3 counters for the call: [new, peek, peek_ahead, peek_n, peek_n_bytes, advance,
+    /// advance_bytes, set_cursor, set_cursor_back_bytes, as_ref, next]
+    pub counters: [u64; 11],
+    /// canary bytes next to the caller's array (on the side away from the guard page) intact
+    pub canary_ok: bool,
 }
 
 impl Obs {
@@ -485,6 +492,9 @@ impl Ctx {
             path_b: None,
             reason_b: None,
             headers_b: Vec::new(),
+            allocs: 0,
+            counters: [0; 11],
+            canary_ok: true,
         };
 
         let config = make_config(spec.cfg);
@@ -497,6 +507,13 @@ impl Ctx {
         };
 
         let entry = spec.entry;
+        let mut allocs = 0u64;
+        // canary next to the array, on the side away from the guard page
+        let canary_ptr: *mut u8 = unsafe {
+            if spec.hdr_at_end { (arr_ptr as *mut u8).sub(64) } else { (arr_ptr as *mut u8).add(cap * 32) }
+        };
+        unsafe { std::ptr::write_bytes(canary_ptr, 0xC3, 64) };
+        httparse::_verif::counters::reset();
         IN_PARSER.with(|c| c.set(true));
         let r = catch_unwind(AssertUnwindSafe(|| {
             match entry.kind() {
@@ -512,9 +529,9 @@ impl Ctx {
                             std::slice::from_raw_parts_mut(arr_ptr as *mut MaybeUninit<_>, cap)
                         };
                         let r = if entry == Entry::ReqUninit {
-                            req.parse_with_uninit_headers(buf, arr)
+                            arm(&mut allocs, || req.parse_with_uninit_headers(buf, arr))
                         } else {
-                            config.parse_request_with_uninit_headers(&mut req, buf, arr)
+                            arm(&mut allocs, || config.parse_request_with_uninit_headers(&mut req, buf, arr))
                         };
                         st = conv(r);
                         // on non-Complete `headers` is the empty slice we put in; reading
@@ -526,9 +543,9 @@ impl Ctx {
                         obs.hslice_before = Sl { ptr: arr_ptr as usize, len: cap };
                         req = Request::new(arr);
                         let r = if entry == Entry::ReqParse {
-                            req.parse(buf)
+                            arm(&mut allocs, || req.parse(buf))
                         } else {
-                            config.parse_request(&mut req, buf)
+                            arm(&mut allocs, || config.parse_request(&mut req, buf))
                         };
                         st = conv(r);
                         req_headers_ok = true;
@@ -556,10 +573,12 @@ impl Ctx {
                         let r = if entry == Entry::RespUninit {
                             // Response has no parse_with_uninit_headers of its own: the
                             // default config through the config entry point
-                            ParserConfig::default()
-                                .parse_response_with_uninit_headers(&mut resp, buf, arr)
+                            arm(&mut allocs, || {
+                                ParserConfig::default()
+                                    .parse_response_with_uninit_headers(&mut resp, buf, arr)
+                            })
                         } else {
-                            config.parse_response_with_uninit_headers(&mut resp, buf, arr)
+                            arm(&mut allocs, || config.parse_response_with_uninit_headers(&mut resp, buf, arr))
                         };
                         st = conv(r);
                     } else {
@@ -568,9 +587,9 @@ impl Ctx {
                         obs.hslice_before = Sl { ptr: arr_ptr as usize, len: cap };
                         resp = Response::new(arr);
                         let r = if entry == Entry::RespParse {
-                            resp.parse(buf)
+                            arm(&mut allocs, || resp.parse(buf))
                         } else {
-                            config.parse_response(&mut resp, buf)
+                            arm(&mut allocs, || config.parse_response(&mut resp, buf))
                         };
                         st = conv(r);
                     }
@@ -584,7 +603,7 @@ impl Ctx {
                 Kind::Headers => {
                     let arr: &'static mut [Header<'static>] =
                         unsafe { std::slice::from_raw_parts_mut(arr_ptr, cap) };
-                    match httparse::parse_headers(buf, arr) {
+                    match arm(&mut allocs, || httparse::parse_headers(buf, arr)) {
                         Ok(Status::Complete((n, hs))) => {
                             obs.st = St::Complete(n);
                             collect(hs, &mut obs);
@@ -593,7 +612,7 @@ impl Ctx {
                         Err(e) => obs.st = St::Err(ErrKind::from_real(e)),
                     }
                 }
-                Kind::Chunk => match httparse::parse_chunk_size(buf) {
+                Kind::Chunk => match arm(&mut allocs, || httparse::parse_chunk_size(buf)) {
                     Ok(Status::Complete((n, sz))) => {
                         obs.st = St::Complete(n);
                         obs.chunk_size = Some(sz);
@@ -604,6 +623,9 @@ impl Ctx {
             }
         }));
         IN_PARSER.with(|c| c.set(false));
+        obs.counters = httparse::_verif::counters::snapshot();
+        obs.allocs = allocs;
+        obs.canary_ok = (0..64).all(|i| unsafe { *canary_ptr.add(i) } == 0xC3);
         if let Err(p) = r {
             let msg = if let Some(s) = p.downcast_ref::<&str>() {
                 s.to_string()
@@ -618,6 +640,13 @@ impl Ctx {
         clear_inflight();
         obs
     }
+}
+
+#[inline(always)]
+fn arm<T>(acc: &mut u64, f: impl FnOnce() -> T) -> T {
+    let (r, n) = crate::alloc::armed(f);
+    *acc += n;
+    r
 }
 
 fn conv(r: httparse::Result<usize>) -> St {
